@@ -546,6 +546,22 @@ fn main_loop(args: Vec<String>) {
                 }
                 "{\"ok\":true}".to_string()
             }
+            "adopt" => {
+                // the caller replaces the public cache maps of one protocol on parser p by a copy of those of parser `from`
+                let src = parsers.get(&nat(&op["from"])).map(|q| {
+                    (q.v9_parser.templates.clone(), q.v9_parser.options_templates.clone(), q.ipfix_parser.templates.clone(), q.ipfix_parser.options_templates.clone())
+                });
+                if let (Some(p), Some(src)) = (parsers.get_mut(&nat(&op["p"])), src) {
+                    if nat(&op["proto"]) == 10 {
+                        p.ipfix_parser.templates = src.2;
+                        p.ipfix_parser.options_templates = src.3;
+                    } else {
+                        p.v9_parser.templates = src.0;
+                        p.v9_parser.options_templates = src.1;
+                    }
+                }
+                "{\"ok\":true}".to_string()
+            }
             "forget" => {
                 // the caller removes a template id from the public cache maps of one protocol (template expiry)
                 if let Some(p) = parsers.get_mut(&nat(&op["p"])) {
